@@ -2075,34 +2075,6 @@ func (k *Kernel) handleReplayedHeader(
 		}
 	}
 
-	// Now the voting view matches the height and round of the incoming replayed proof.
-	// It is possible that we already saw the incoming header and got stuck leading to a replay.
-	// Make sure we have only one copy.
-	if !slices.ContainsFunc(s.Voting.ProposedHeaders, func(ph tmconsensus.ProposedHeader) bool {
-		return bytes.Equal(ph.Header.Hash, header.Hash)
-	}) {
-		// Didn't have the hash, so append it...
-		// but we only have a Header, not a proposed Header, so we leave a couple fields blank.
-		// This seems acceptable but there is a chance it could cause something to break.
-		fakePH := tmconsensus.ProposedHeader{
-			Header: header,
-			Round:  proof.Round,
-			// Explicitly missing ProposerPubKey, Annotations, and Signature.
-			// That is fine, as noted in the documentation for the RoundStore.
-		}
-
-		if err := k.rStore.SaveRoundReplayedHeader(ctx, header); err != nil {
-			return tmelink.ReplayedHeaderInternalError{
-				Err: fmt.Errorf(
-					"failed to save replayed header to round store: %w",
-					err,
-				),
-			}
-		}
-
-		s.Voting.ProposedHeaders = append(s.Voting.ProposedHeaders, fakePH)
-	}
-
 	// Now ensure we have majority vote power,
 	// otherwise the replay cannot proceed.
 	headerProof := tempProofs[string(header.Hash)]
@@ -2135,6 +2107,37 @@ func (k *Kernel) handleReplayedHeader(
 				maj, header.Hash, blockPow,
 			),
 		}
+	}
+
+	// The proof is sufficient, so from here on we modify the voting view.
+	// (Recording the header earlier would change the view on a replay that is then rejected,
+	// without the view version changing.)
+	// The voting view matches the height and round of the incoming replayed proof.
+	// It is possible that we already saw the incoming header and got stuck leading to a replay.
+	// Make sure we have only one copy.
+	if !slices.ContainsFunc(s.Voting.ProposedHeaders, func(ph tmconsensus.ProposedHeader) bool {
+		return bytes.Equal(ph.Header.Hash, header.Hash)
+	}) {
+		// Didn't have the hash, so append it...
+		// but we only have a Header, not a proposed Header, so we leave a couple fields blank.
+		// This seems acceptable but there is a chance it could cause something to break.
+		fakePH := tmconsensus.ProposedHeader{
+			Header: header,
+			Round:  proof.Round,
+			// Explicitly missing ProposerPubKey, Annotations, and Signature.
+			// That is fine, as noted in the documentation for the RoundStore.
+		}
+
+		if err := k.rStore.SaveRoundReplayedHeader(ctx, header); err != nil {
+			return tmelink.ReplayedHeaderInternalError{
+				Err: fmt.Errorf(
+					"failed to save replayed header to round store: %w",
+					err,
+				),
+			}
+		}
+
+		s.Voting.ProposedHeaders = append(s.Voting.ProposedHeaders, fakePH)
 	}
 
 	// Store the updated proofs back into the long-lived local set.
